@@ -217,12 +217,12 @@ impl num_traits::FromPrimitive for Month {
     /// ``:                        | Some(Month::January) | Some(Month::February) | ... | Some(Month::December)
     #[inline]
     fn from_u64(n: u64) -> Option<Month> {
-        Self::from_u32(n as u32)
+        Self::from_u32(u32::try_from(n).ok()?)
     }
 
     #[inline]
     fn from_i64(n: i64) -> Option<Month> {
-        Self::from_u32(n as u32)
+        Self::from_u32(u32::try_from(n).ok()?)
     }
 
     #[inline]
